@@ -113,12 +113,12 @@ func dumpArgs(env *typeEnv, args []any) string {
 }
 
 type bindObs struct {
-	line    string
-	sql     string
-	args    []string // name=value prints
-	query   bool
-	prepErr string
-	qErr    string
+	line     string
+	sql      string
+	args     []string // name=value prints
+	query    bool
+	prepErr  string
+	qErr     string
 	panicked string
 }
 
@@ -164,10 +164,26 @@ func implBind(c bindCase) (o bindObs) {
 		wr := newRng(h)
 		var other []any
 		for i, a := range c.args {
-			if h%2 == 0 {
+			switch (h / 3) % 4 {
+			case 0:
 				other = append(other, reshape(wr, a, int(h%7)+i))
-			} else {
+			case 1:
 				other = append(other, emptied(a))
+			case 2:
+				// as many omitted columns, but other ones: the generated SQL differs, the number of
+				// parameters does not
+				if o, ok := rotateOmit(a, wr); ok {
+					other = append(other, o)
+				} else {
+					other = append(other, reshape(wr, a, int(h%7)+i))
+				}
+			default:
+				// the other row layout of a bulk insert
+				if o, ok := rebulk(a); ok {
+					other = append(other, o)
+				} else {
+					other = append(other, reshape(wr, a, int(h%7)+i))
+				}
 			}
 		}
 		func() {
@@ -304,18 +320,18 @@ func countTop(s string) int {
 }
 
 type bindStats struct {
-	Cases       int            `json:"cases"`
-	Results     map[string]int `json:"result_kinds"`
-	Classes     map[string]int `json:"error_classes"`
-	Distinct    int            `json:"distinct_cases"`
-	NonTrivial  int            `json:"distinct_nontrivial"`
-	WithInsert  int            `json:"ok_with_insert"`
-	WithOutputs int            `json:"ok_with_outputs"`
-	WithBulk    int            `json:"ok_with_bulk_rows"`
-	Samples     []string       `json:"samples"`
-	Other       int            `json:"unknown_error_wordings"`
-	SpecChecked   int          `json:"accepted_outputs_checked_against_the_property_transcription"`
-	SpecAbstained int          `json:"accepted_outputs_the_transcription_abstained_on"`
+	Cases         int            `json:"cases"`
+	Results       map[string]int `json:"result_kinds"`
+	Classes       map[string]int `json:"error_classes"`
+	Distinct      int            `json:"distinct_cases"`
+	NonTrivial    int            `json:"distinct_nontrivial"`
+	WithInsert    int            `json:"ok_with_insert"`
+	WithOutputs   int            `json:"ok_with_outputs"`
+	WithBulk      int            `json:"ok_with_bulk_rows"`
+	Samples       []string       `json:"samples"`
+	Other         int            `json:"unknown_error_wordings"`
+	SpecChecked   int            `json:"accepted_outputs_checked_against_the_property_transcription"`
+	SpecAbstained int            `json:"accepted_outputs_the_transcription_abstained_on"`
 }
 
 func cmdBind(args []string) int {
